@@ -4,6 +4,7 @@ package main
 // functions, command literals, store submissions.
 
 import (
+	"regexp"
 	"fmt"
 	"go/ast"
 	"go/token"
@@ -303,6 +304,9 @@ func (pe *provEnv) provD(e ast.Expr, depth int) string {
 					return "await(" + inner + ")"
 				}
 			}
+		}
+		if r, ok := pe.inlineHelper(x, depth); ok {
+			return r
 		}
 		name := calleeNameOf(info, x)
 		var as []string
@@ -800,9 +804,73 @@ func (m *coroModel) structLits(pkg, typeName string) []*cmdLit {
 				}
 			}
 			l.Conds = cf.Env.enclosingConds(cf.Decl.Body, cl)
-			out = append(out, l)
+			out = append(out, m.hoist(l, cf)...)
 			return true
 		})
+	}
+	return out
+}
+
+// hoist: a literal built inside a plain value-returning helper (not a coroutine, not registered,
+// called from other functions of the package) is attributed to each of its call sites: it is
+// governed by the conditions that govern the call, it runs in the caller's role, and the helper's
+// parameters stand for the caller's arguments.
+func (m *coroModel) hoist(l *cmdLit, cf *coroFunc) []*cmdLit {
+	if cf.Lit != nil || len(m.roleOf(cf.Name)) > 0 {
+		return []*cmdLit{l}
+	}
+	obj, _ := m.Pk.TypesInfo.Defs[cf.Decl.Name].(*types.Func)
+	if obj == nil {
+		return []*cmdLit{l}
+	}
+	sig := obj.Type().(*types.Signature)
+	if sig.Recv() != nil || sig.Variadic() || sig.Results().Len() == 0 {
+		return []*cmdLit{l}
+	}
+	for i := 0; i < sig.Params().Len(); i++ {
+		if isCoroutineType(sig.Params().At(i).Type()) {
+			return []*cmdLit{l}
+		}
+	}
+	for i := 0; i < sig.Results().Len(); i++ {
+		if namedName(sig.Results().At(i).Type()) == "CoroutineFunc" {
+			return []*cmdLit{l}
+		}
+	}
+	var out []*cmdLit
+	for _, name := range m.Order {
+		caller := m.Funcs[name]
+		if caller == cf {
+			continue
+		}
+		for _, call := range callsInDeep(caller.Decl.Body) {
+			if calleeOf(m.Pk.TypesInfo, call) != types.Object(obj) || len(call.Args) != sig.Params().Len() {
+				continue
+			}
+			subst := func(v string) string {
+				for i := 0; i < sig.Params().Len(); i++ {
+					pn := sig.Params().At(i).Name()
+					if pn == "" || pn == "_" || !strings.Contains(v, "param:"+pn) {
+						continue
+					}
+					re := regexp.MustCompile(`param:` + regexp.QuoteMeta(pn) + `\b`)
+					v = re.ReplaceAllLiteralString(v, caller.Env.prov(call.Args[i]))
+				}
+				return v
+			}
+			h := &cmdLit{Type: l.Type, Func: name, Lit: l.Lit, Fields: map[string]string{}, Pos: l.Pos}
+			for f, v := range l.Fields {
+				h.Fields[f] = subst(v)
+			}
+			h.Conds = append(h.Conds, caller.Env.enclosingConds(caller.Decl.Body, call)...)
+			for _, a := range l.Conds {
+				h.Conds = append(h.Conds, subst(a))
+			}
+			out = append(out, h)
+		}
+	}
+	if len(out) == 0 {
+		return []*cmdLit{l}
 	}
 	return out
 }
@@ -845,6 +913,51 @@ func (m *coroModel) patches(pkg, typeName string) []*cmdLit {
 		}
 	}
 	return out
+}
+
+// inlineHelper: a call to a package-level function of the analysed package whose body is a single
+// `return <expr>` is described by that expression with the arguments substituted for the
+// parameters, so that the description does not depend on the helper's name.
+func (pe *provEnv) inlineHelper(call *ast.CallExpr, depth int) (string, bool) {
+	fn, ok := calleeOf(pe.pk.TypesInfo, call).(*types.Func)
+	if !ok || fn.Pkg() != pe.pk.Types {
+		return "", false
+	}
+	sig := fn.Type().(*types.Signature)
+	if sig.Recv() != nil || sig.Variadic() || sig.Results().Len() != 1 || sig.Params().Len() != len(call.Args) {
+		return "", false
+	}
+	fd := funcDeclOf(pe.pk, fn)
+	if fd == nil || fd.Body == nil || len(fd.Body.List) != 1 || fd == pe.fd {
+		return "", false
+	}
+	ret, ok := fd.Body.List[0].(*ast.ReturnStmt)
+	if !ok || len(ret.Results) != 1 {
+		return "", false
+	}
+	inner := newProvEnv(pe.pk, fd)
+	body := inner.provD(ret.Results[0], depth+1)
+	for i := 0; i < sig.Params().Len(); i++ {
+		pn := sig.Params().At(i).Name()
+		if pn == "" || pn == "_" {
+			continue
+		}
+		re := regexp.MustCompile(`param:` + regexp.QuoteMeta(pn) + `\b`)
+		arg := pe.provD(call.Args[i], depth+1)
+		body = re.ReplaceAllLiteralString(body, arg)
+	}
+	return body, true
+}
+
+func funcDeclOf(pk *packages.Package, fn *types.Func) *ast.FuncDecl {
+	for _, f := range pk.Syntax {
+		for _, d := range f.Decls {
+			if fd, ok := d.(*ast.FuncDecl); ok && pk.TypesInfo.Defs[fd.Name] == fn {
+				return fd
+			}
+		}
+	}
+	return nil
 }
 
 // condAtoms decomposes a condition into canonical atoms: conjunctions split, negations pushed in
@@ -893,12 +1006,131 @@ func (pe *provEnv) condAtoms(e ast.Expr, neg bool) []string {
 // enclosingConds returns the provenance of every if-condition that governs node ("!" + cond when
 // the node is in the else branch).
 func (pe *provEnv) enclosingConds(root ast.Node, node ast.Node) []string {
+	return pe.governingConds(root, node, true)
+}
+
+// enclosingCondsStrict is enclosingConds without the early-exit guards (for rules that compare the
+// condition list as a whole).
+func (pe *provEnv) enclosingCondsStrict(root ast.Node, node ast.Node) []string {
+	return pe.governingConds(root, node, false)
+}
+
+// terminates reports whether a statement list always leaves the enclosing statement list
+// (return, continue, break, goto, panic as its last statement).
+func terminates(list []ast.Stmt) bool {
+	if len(list) == 0 {
+		return false
+	}
+	switch s := list[len(list)-1].(type) {
+	case *ast.ReturnStmt:
+		return true
+	case *ast.BranchStmt:
+		return s.Tok == token.CONTINUE || s.Tok == token.BREAK || s.Tok == token.GOTO
+	case *ast.ExprStmt:
+		if call, ok := s.X.(*ast.CallExpr); ok {
+			if id, ok := call.Fun.(*ast.Ident); ok && id.Name == "panic" {
+				return true
+			}
+		}
+	case *ast.BlockStmt:
+		return terminates(s.List)
+	case *ast.IfStmt:
+		if s.Else == nil {
+			return false
+		}
+		eb, ok := s.Else.(*ast.BlockStmt)
+		if !ok {
+			return terminates(s.Body.List) && terminates([]ast.Stmt{s.Else})
+		}
+		return terminates(s.Body.List) && terminates(eb.List)
+	}
+	return false
+}
+
+// earlyExitGuards: for a statement list containing the statement `at`, the negated conditions of
+// the earlier `if cond { ...; return/continue/break/panic }` statements (no else): control reaches
+// `at` only when cond was false. A guard is dropped when a variable it mentions is assigned between
+// the guard and `at`.
+func (pe *provEnv) earlyExitGuards(list []ast.Stmt, at ast.Node) []string {
+	var out []string
+	idx := -1
+	for i, s := range list {
+		if ast.Node(s) == at {
+			idx = i
+		}
+	}
+	for i := 0; i < idx; i++ {
+		ifs, ok := list[i].(*ast.IfStmt)
+		if !ok || ifs.Else != nil || !terminates(ifs.Body.List) {
+			continue
+		}
+		// variables of the condition
+		objs := map[types.Object]bool{}
+		ast.Inspect(ifs.Cond, func(n ast.Node) bool {
+			if id, ok := n.(*ast.Ident); ok {
+				if v, ok := pe.pk.TypesInfo.Uses[id].(*types.Var); ok && !v.IsField() {
+					objs[v] = true
+				}
+			}
+			return true
+		})
+		if ifs.Init != nil {
+			continue
+		}
+		reassigned := false
+		for j := i + 1; j < idx; j++ {
+			ast.Inspect(list[j], func(n ast.Node) bool {
+				switch x := n.(type) {
+				case *ast.AssignStmt:
+					for _, l := range x.Lhs {
+						if id, ok := ast.Unparen(l).(*ast.Ident); ok {
+							if o := pe.pk.TypesInfo.Uses[id]; o != nil && objs[o] {
+								reassigned = true
+							}
+							if o := pe.pk.TypesInfo.Defs[id]; o != nil && objs[o] {
+								reassigned = true
+							}
+						}
+					}
+				case *ast.IncDecStmt:
+					if id, ok := ast.Unparen(x.X).(*ast.Ident); ok && objs[pe.pk.TypesInfo.Uses[id]] {
+						reassigned = true
+					}
+				case *ast.UnaryExpr:
+					if x.Op == token.AND {
+						if id, ok := ast.Unparen(x.X).(*ast.Ident); ok && objs[pe.pk.TypesInfo.Uses[id]] {
+							reassigned = true
+						}
+					}
+				}
+				return true
+			})
+		}
+		if reassigned {
+			continue
+		}
+		out = append(out, pe.condAtoms(ifs.Cond, true)...)
+	}
+	return out
+}
+
+func (pe *provEnv) governingConds(root ast.Node, node ast.Node, guards bool) []string {
 	var out []string
 	chain := enclosing(root, node)
 	chain = append(chain, node)
 	for i, n := range chain {
 		if i+1 >= len(chain) {
 			continue
+		}
+		if guards {
+			switch b := n.(type) {
+			case *ast.BlockStmt:
+				out = append(out, pe.earlyExitGuards(b.List, chain[i+1])...)
+			case *ast.CaseClause:
+				out = append(out, pe.earlyExitGuards(b.Body, chain[i+1])...)
+			case *ast.CommClause:
+				out = append(out, pe.earlyExitGuards(b.Body, chain[i+1])...)
+			}
 		}
 		// switch statements: a case clause is governed by its own condition and by the negation of
 		// the cases before it (tagless), or by tag == value (tagged; several values: a disjunction)
